@@ -15,6 +15,16 @@ pub const ID: &str = "C02";
 /// Returns per document (engine three-valued result, admissible set, whether a sub-result was
 /// widened because it is not judged).
 pub fn eval_case(case: &Case) -> Result<Vec<(Tri, reference::RSet, bool)>, Outcome> {
+    eval_case_impl(case, true)
+}
+
+/// `with_optimised`: the properties that use this oracle (C05, C07, C09, C10) speak about
+/// `Rule::matches` whatever the rule went through, so the same documents are also matched against
+/// the rule optimised with the default switches and with one further switch set; a verdict that
+/// differs from the unoptimised one must be explained by the known findings K1 / K2 exactly as in
+/// C01 (relaxed reference for that switch set). C02 itself is stated for the unoptimised rule and
+/// leaves this to C01.
+pub fn eval_case_impl(case: &Case, with_optimised: bool) -> Result<Vec<(Tri, reference::RSet, bool)>, Outcome> {
     let text = &case.rules[0];
     let neg_text = &case.rules[1];
     let refrule = match reference::load_rule_text(text, false) {
@@ -52,6 +62,11 @@ pub fn eval_case(case: &Case) -> Result<Vec<(Tri, reference::RSet, bool)>, Outco
     // unoptimised engine
     let exact = std::env::var("VERIF_EXACT_SELFTEST").is_ok();
     let ev = Evaluator::new(&refrule, EvalOpts { engine_exact: exact, ..EvalOpts::default() });
+    if with_optimised {
+        optimised_agreement(text, &rule, Some(&refrule), "", &case.docs)?;
+        let neg_ref = reference::load_rule_text(neg_text, false).ok();
+        optimised_agreement(neg_text, &neg_rule, neg_ref.as_ref(), "negated ", &case.docs)?;
+    }
     let mut out = vec![];
     NJ_REASONS.with(|r| r.borrow_mut().clear());
     for (i, doc) in case.docs.iter().enumerate() {
@@ -88,13 +103,61 @@ pub fn eval_case(case: &Case) -> Result<Vec<(Tri, reference::RSet, bool)>, Outco
     Ok(out)
 }
 
+/// The documents are also matched against the rule optimised with the default switches and with
+/// one further switch set; a verdict that differs from the unoptimised one must be explained by the
+/// known findings K1 / K2 exactly as in C01 (relaxed reference for that switch set).
+pub fn optimised_agreement(
+    text: &str,
+    rule: &tau_engine::Rule,
+    refrule: Option<&reference::RefRule>,
+    which: &str,
+    docs: &[crate::model::DObj],
+) -> Result<(), Outcome> {
+    let extra = 1 + (hash_str(text) % 14) as u8;
+    for bits in [15u8, extra] {
+        let sw = engine::Switches::from_bits(bits);
+        let opt = match engine::optimise(rule, sw) {
+            Ok(o) => o,
+            Err(p) => return Err(Outcome::Violation(format!("optimise({}) of the {which}rule panicked: {p}", sw.show()))),
+        };
+        for (i, doc) in docs.iter().enumerate() {
+            let (base, got) = match (engine::matches(rule, doc), engine::matches(&opt, doc)) {
+                (Ok(a), Ok(b)) => (a, b),
+                (Err(p), _) | (_, Err(p)) => {
+                    return Err(Outcome::Violation(format!(
+                        "matches() of the {which}rule (optimised with {}) panicked on doc #{i}: {p}",
+                        sw.show()
+                    )))
+                }
+            };
+            if base == got {
+                continue;
+            }
+            // explained by and-reordering / double-negation removal (K1, K2)?
+            if let Some(rr) = refrule {
+                let rel = Evaluator::new(rr, EvalOpts { relaxed: true, shake: sw.shake, matrix: sw.matrix, engine_exact: true });
+                if reference::verdict_admissible(rel.eval(doc), got) {
+                    continue;
+                }
+            }
+            return Err(Outcome::Violation(format!(
+                "doc #{i} {}: the {which}rule matches={base} as loaded but matches={got} after optimise({}); optimised expression: {}",
+                doc.show(),
+                sw.show(),
+                opt.detection.expression
+            )));
+        }
+    }
+    Ok(())
+}
+
 thread_local! {
     /// reasons of the not-judged sub-results of the last eval_case on this thread
     pub static NJ_REASONS: std::cell::RefCell<std::collections::BTreeMap<&'static str, u32>> = Default::default();
 }
 
 pub fn judge(case: &Case) -> Outcome {
-    let results = match eval_case(case) {
+    let results = match eval_case_impl(case, false) {
         Ok(r) => r,
         Err(o) => return o,
     };
